@@ -15,10 +15,11 @@ try:
     r = subprocess.run(["patch", "-p1", "-s", "-i", patch], cwd=d, capture_output=True, text=True)
     if r.returncode:
         print("PATCH FAILED", r.stdout, r.stderr); sys.exit(3)
-    env = dict(os.environ, PYTHONPATH="/verif", LBSA_EVIDENCE_DIR=f"{d}/evidence", PYTHONDONTWRITEBYTECODE="1")
+    VR = os.environ.get("LBSA_ROOT", "/verif")
+    env = dict(os.environ, PYTHONPATH=VR, LBSA_EVIDENCE_DIR=f"{d}/evidence", PYTHONDONTWRITEBYTECODE="1")
     worst = 0
     for pid in pids:
-        r = subprocess.run(["/venv/bin/python", "-m", "lbsa.cli", "check", pid, "--repo", d], env=env, cwd="/verif",
+        r = subprocess.run(["/venv/bin/python", "-m", "lbsa.cli", "check", pid, "--repo", d], env=env, cwd=VR,
                            capture_output=True, text=True)
         lines = [l for l in r.stdout.splitlines() if l.strip()]
         tag = {0: "silent", 1: "VIOLATION", 2: "ANALYSIS-ERROR"}.get(r.returncode, str(r.returncode))
